@@ -23,14 +23,14 @@ from mofun import replace_pattern_in_structure
 
 ENGINE = 'E3 state graph'
 CAP = 8
-INITS = ['empty Atoms()', '3-atom typed chain, full tables', '4 atoms, terms but no tables', '3 atoms, extra columns, tables', '4 atoms, bonds + improper, tables']
-FRAGS = ['single atom', 'bonded pair', '3 atoms, bond/angle terms', '4 atoms, all term kinds']
+INITS = ['empty Atoms()', '3-atom typed chain, full tables', '4 atoms, terms but no tables', '3 atoms, extra columns, tables', '4 atoms, bonds + improper, tables', '4 atoms, angles + dihedrals only (no bonds), tables']
+FRAGS = ['single atom', 'bonded pair', '3 atoms, bond/angle terms', '4 atoms, all term kinds', '3 atoms, angles only']
 REPL = ['typed C-N-O with bonds + inserted F', 'empty', 'C-N-S (one element changed), typed']
 
 
 def frag(fi, tabled, step):
-    n = [1, 2, 3, 4][fi]
-    f = mk(n, tables=bool(tabled), tag=['xy', 'uv', 'pq', 'rs'][fi], q0=-0.3, shift=7.0)
+    n = [1, 2, 3, 4, 3][fi]
+    f = mk(n, tables=bool(tabled), tag=['xy', 'uv', 'pq', 'rs', 'ao'][fi], q0=-0.3, shift=7.0, kinds=KINDS if fi < 4 else ['angle'])
     f.translate(np.array([0.0, 2.0 * (step + 1), 0.0]))
     return f
 
@@ -69,7 +69,7 @@ class Model:
         if i == 0:
             a = Atoms(); ref = RefStructure([], {k: [] for k in KINDS}, None); tabled = None
         else:
-            a = [None, mk(3, True), mk(4, False), mk(3, True, xf=True), mk(4, True, kinds=['bond', 'improper'])][i]
+            a = [None, mk(3, True), mk(4, False), mk(3, True, xf=True), mk(4, True, kinds=['bond', 'improper']), mk(4, True, kinds=['angle', 'dihedral'])][i]
             ref = RefStructure.of(a); tabled = i != 2
         return dict(a=a, ref=ref, tabled=tabled)
 
@@ -78,7 +78,7 @@ class Model:
         a = st['a']; n = len(a.atom_types); full = level < self.full_levels
         out = []
         for fi in range(len(FRAGS)):
-            nf = [1, 2, 3, 4][fi]
+            nf = [1, 2, 3, 4, 3][fi]
             if n + nf > CAP or (not full and fi in (1, 3)):
                 continue
             maps = []
